@@ -2,8 +2,13 @@
 # tools/seedrun.sh <seeded-dir-or-patch> <Cxx> [Cxx...] : apply a seeded change to /repo, run checks, undo it.
 P="$1"; shift
 [ -d "$P" ] && P="$P/patch.diff"
+P="$(readlink -f "$P")"
 cd /verif
-if ! git -C /repo diff --quiet; then echo "/repo is dirty"; exit 2; fi
-git -C /repo apply "$P" || { echo "patch does not apply"; exit 2; }
-for c in "$@"; do ./check "$c" > /tmp/seedrun_$c.log 2>&1; rc=$?; echo "== $c exit=$rc"; grep -E "^VIOLATION|^KNOWN|why:" /tmp/seedrun_$c.log | head -6; done
+if ! git -C /repo diff --quiet || ! git -C /repo diff --cached --quiet; then echo "/repo is dirty"; exit 2; fi
+if ! git -C /repo apply "$P" 2>/dev/null; then
+  # made against an earlier commit: three-way merge against the recorded blobs
+  git -C /repo apply --3way "$P" >/dev/null 2>&1 || { echo "patch does not apply"; git -C /repo reset -q --hard; exit 2; }
+  git -C /repo reset -q     # keep the change in the working tree only
+fi
+for c in "$@"; do ./check "$c" > /tmp/seedrun_$c.log 2>&1; rc=$?; echo "== $c exit=$rc $(grep -cE '^VIOLATION' /tmp/seedrun_$c.log) violation line(s)"; grep -E "^VIOLATION|^KNOWN" /tmp/seedrun_$c.log | head -2; done
 git -C /repo checkout -- .
